@@ -11,9 +11,34 @@ EXTENDS RankSelect, TLC
 CONSTANT MaxLen
 
 Init == vec = Mk(<<>>)
-Next == /\ vec.n < MaxLen
-        /\ \E x \in {0, 1} : vec' = Mk(Append(vec.bits, x))
+(* the mutators of the bit-vector history machine (RankSelect.tla), bounded by MaxLen: every bit    *)
+(* string of length <= MaxLen is reachable by push alone; the other mutators add transitions only. *)
+PopAnswer(k) == [j \in 1..k |-> IF j <= N THEN Bits[N - j + 1] ELSE Refused]
+Next ==
+    \/ vec.n < MaxLen /\ \E x \in {0, 1} : BvPush(<<x>>)
+    \/ \E k \in 1..2 : BvPop(k, PopAnswer(k))
+    \/ \E i \in 0..N, x \in {0, 1} : BvSet(i, x, i < N)
+    \/ vec.n < MaxLen /\ \E i \in 0..N, x \in {0, 1} : BvInsert(i, x, TRUE)
+    \/ \E i \in 0..(MaxLen - 1) : BvEnsureSet1(i, TRUE)
+    \/ \E n \in 0..MaxLen, x \in {0, 1} : BvResize(n, x, TRUE)
+    \/ BvClear
+    \/ \E s \in 0..N, t \in 0..N, x \in {0, 1} : s <= t /\ BvSetRange(s, t, x, TRUE)
+    \/ \E s \in 0..N, t \in 0..N, f \in {"and", "or", "xor"} : s <= t /\ BvBitwise(f, Rep(1, N), s, t, TRUE)
 Spec == Init /\ [][Next]_vec
+
+(* the history machine: out-of-range arguments and wrong pop results are rejected, refusals change nothing *)
+HistoryContract ==
+    /\ \A x \in {0, 1} : /\ ~ ENABLED BvSet(N, x, TRUE) /\ ENABLED BvSet(N, x, FALSE)
+                           /\ ~ ENABLED BvInsert(N + 1, x, TRUE)
+                           /\ ~ ENABLED BvSetRange(0, N + 1, x, TRUE)
+                           /\ Mk(SubSeq(Append(Bits, x), 1, N)) = vec            \* pop undoes push
+                           /\ Mk(SubSeq(Bits, 1, N) \o <<x>>) = Mk(Append(Bits, x)) \* insert at len = push
+    /\ IF N = 0 THEN ENABLED BvPop(1, <<Refused>>) /\ ~ ENABLED BvPop(1, <<0>>)
+       ELSE /\ ~ ENABLED BvPop(1, <<1 - Bits[N]>>) /\ ~ ENABLED BvPop(1, <<Refused>>)
+            /\ ENABLED BvPop(1, <<Bits[N]>>)
+(* every mutator step keeps the tables consistent with the new bit string and changes the length as stated *)
+HistorySteps == [][/\ vec'.pre = Prefix(vec'.bits) /\ vec'.n = Len(vec'.bits)
+                   /\ Len(vec'.p1) + Len(vec'.p0) = vec'.n]_vec
 
 b == vec.bits
 
